@@ -37,6 +37,8 @@ ASSUMPTIONS = [
     "increment only; forces on mixed-unit bands are checked by the implementation oracles); all images of a band have the same number of atoms",
     "The tangent is non-zero (otherwise the implementation divides by zero and returns NaN: such generated cases are skipped and counted)",
     "Atom index selections passed to partition are valid indices",
+    "The Coq model has no units for force constants and distances either: force constants are Ha/A^2 and max_delta is in Angstrom; "
+    "objects carrying other units are exercised by the implementation oracles (and by the model after conversion)",
     "partition's Python while-loop is unbounded; the model has fuel 400 (out-of-fuel is an explicit result, never reached by the generated cases)",
 ]
 RULE = ("bands of 2..20 images (quick: 2..8) x 1..3 atoms, coordinates k/8, gradients k/16, force constants k/16, energy profiles "
@@ -64,8 +66,9 @@ PINS = [("autode/neb/original.py", q) for q in (
     "Images.coords", "Images.set_coords",                   # flat coordinate vector <-> images (optimiser state)
     "total_energy", "energy_gradient", "_idpp_energy_gradient",   # only interior images re-evaluated; increment() called per step
     "NEB.__init__", "NEB.from_list", "NEB.from_end_points", "NEB.idpp_relax", "NEB._minimise",   # the `build` oracle of partition
+    "NEB.calculate", "_est_energy_gradient", "Images.copy",      # the optimiser path exercised by oracle_optimise
     "NEB.max_atom_distance_between_images")] + [
-    ("autode/neb/ci.py", q) for q in ("CImage.__init__", "CImages.__init__", "CImages.increment", "CINEB.__init__")] + [
+    ("autode/neb/ci.py", q) for q in ("CImage.__init__", "CImages.__init__", "CImages.increment", "CINEB.__init__", "CINEB._minimise")] + [
     ("autode/neb/idpp.py", q) for q in ("IDPP.__init__", "IDPP._set_distance_matrices", "IDPP._distance_matrix")] + [
     ("autode/path/path.py", q) for q in ("Path.__init__", "Path.energies", "Path.peak_idx", "Path.is_saddle")] + [
     # Python `<`, `max`, `-`, `*`, `==` on energies / force constants as modelled by ltb / pmax / field ops / energy_eqb
@@ -165,7 +168,9 @@ def build_images(band):
     if band.get("min_k") is not None:
         # band values are Ha / A^2; the objects may carry them in another unit
         kw = {"min_k": ForceConstant(band["min_k"]).to(bu[0]), "max_k": ForceConstant(band["max_k"]).to(bu[1])}
-    imgs = Images(init_k=ForceConstant(band["ks"][0]), **kw)
+    # the initial constant handed to Images lies inside the configured bounds (each image gets its own k below)
+    k0 = band["ks"][0] if band.get("min_k") is None else (band["min_k"] + band["max_k"]) / 2
+    imgs = Images(init_k=ForceConstant(k0), **kw)
     for x in band["coords"]:
         imgs.append_species(_species(x))
     units = band.get("units") or ["Ha"] * len(band["energies"])
@@ -690,7 +695,7 @@ def oracle_partition(d):
     return fails, (tag, final, calls), info
 
 
-ORACLE_TIME_LIMIT = 40     # seconds per implementation oracle call (the slowest honest case takes ~4 s)
+ORACLE_TIME_LIMIT = 90     # seconds per implementation oracle call (slowest honest quick case ~4 s, thorough ~12 s, idle machine)
 TIMED_OUT = {}             # kind -> number of calls that hit the limit in this run
 
 
@@ -744,7 +749,56 @@ def oracle_ci_sequence(d):
                 fails.append(("CImages.increment|stale-climbing-image",
                               f"step {step}, energies {es}: image {i} ({type(imgs[i]).__name__}) is not the highest peak (image {top}) but "
                               f"its force {f.tolist()} is not the NEB force {f_neb.tolist()}"))
-        if fails:
+    seen, out = set(), []
+    for k, w in fails:          # one instance per key is enough for a replay
+        if k not in seen:
+            seen.add(k)
+            out.append((k, w))
+    return out
+
+
+def _stand_in_energy_gradient(image, method, n_cores):
+    """A smooth analytic potential in place of an electronic-structure calculation (sets energy and
+    gradient like _est_energy_gradient does)."""
+    from autode.values import PotentialEnergy
+    x = np.array(image.coordinates).flatten()
+    c = np.linspace(0.3, 1.1, x.size)
+    image.energy = PotentialEnergy(float(0.05 * np.sum((x - c) ** 2) + 0.02 * np.sum(np.sin(3 * x))))
+    image.gradient = (0.1 * (x - c) + 0.06 * np.cos(3 * x)).reshape(-1, 3)
+    return image
+
+
+def oracle_optimise(d):
+    """The optimiser path of NEB.calculate (NEB._minimise / CINEB._minimise -> scipy L-BFGS-B with total_energy /
+    derivative, ProcessPool branch, images replaced by the unpickled results) with a stand-in potential: the two end
+    images do not move (bitwise), interior images do, atom order is kept."""
+    import autode.neb.original as M
+    from autode.neb.ci import CINEB
+    fails = []
+    cls = CINEB if d.get("cineb") else M.NEB
+    orig = M.energy_gradient
+    M.energy_gradient = _stand_in_energy_gradient
+    try:
+        neb = cls.from_end_points(_species(d["a"], d["labels"]), _species(d["b"], d["labels"]), num=d["n"])
+        for idx in (0, -1):
+            _stand_in_energy_gradient(neb.images[idx], None, 1)
+        x0 = [np.array(im.coordinates).flatten().copy() for im in neb.images]
+        res = neb._minimise(method=object(), n_cores=2, etol=1e-6, max_n=25)
+        neb.images.set_coords(res.x)
+    finally:
+        M.energy_gradient = orig
+    x1 = [np.array(im.coordinates).flatten() for im in neb.images]
+    if len(x1) != d["n"]:
+        return [("NEB._minimise|image-count", f"{d['n']} images before, {len(x1)} after the optimisation")]
+    for idx, name in ((0, "first"), (-1, "last")):
+        if not np.array_equal(x0[idx], x1[idx]):
+            fails.append(("NEB._minimise|end-image-moved",
+                          f"{cls.__name__}, {d['n']} images: the {name} image moved by {float(np.max(np.abs(x0[idx] - x1[idx])))!r} A "
+                          f"during {res.nfev} optimiser evaluations"))
+    d["_moved"] = bool(any(np.max(np.abs(p - q)) > 1e-6 for p, q in zip(x0[1:-1], x1[1:-1])))   # non-triviality only
+    for i, im in enumerate(neb.images):
+        if [at.label for at in im.atoms] != d["labels"]:
+            fails.append(("NEB._minimise|composition", f"image {i} has atoms {[at.label for at in im.atoms]}"))
             break
     return fails
 
@@ -807,7 +861,8 @@ def guarded(kind, fn, d, nres):
 
 ORACLES = {"band": lambda d: oracle_band(d)[0], "interp": lambda d: oracle_interp(d)[0],
            "from_end_points": oracle_from_end_points, "maxdist": lambda d: oracle_maxdist(d)[0],
-           "partition": lambda d: oracle_partition(d)[0], "ci_sequence": oracle_ci_sequence, "config": oracle_config}
+           "partition": lambda d: oracle_partition(d)[0], "ci_sequence": oracle_ci_sequence, "config": oracle_config,
+           "optimise": oracle_optimise}
 
 
 # ============================================================================================
@@ -957,7 +1012,7 @@ def all_cases(ctx):
         triples.append(t)
     mixed = []
     for m in range(3, (mmax if full else 6) + 1):
-        for profile in (["up", "peak", "valley"] if full else [rng.choice(["peak", "valley", "up"])]):
+        for profile in (["up", "peak", "peak", "valley"] if full else ["peak"]):      # only a peaked band is updated
             mixed.append(gen_mixed_k_band(rng, m, rng.choice([1, 2]), profile))
     ci_seqs = []
     for m in ([4, 5, 6, 8, 12] if full else [5, 7]):
@@ -1026,7 +1081,8 @@ def all_cases(ctx):
     fine = [("H3", ["H", "H", "H"], [[0, 0, 0, 0.9, 0, 0, 3.2, 0, 0], [0, 0, 0, 1.4, 0, 0, 3.2, 0, 0]], 0.0125, [1]),   # ratio 40
             ("H2", ["H", "H"], [[0, 0, 0, 0.8, 0, 0], [0, 0, 0, 1.3, 0, 0]], 0.01, [1])]                                 # ratio 50
     if full:
-        fine += [("H2", ["H", "H"], [[0, 0, 0, 0.8, 0, 0], [0, 0, 0, 1.25, 0.2, 0]], 0.0085, [1]),                        # ratio ~58
+        fine += [("H2", ["H", "H"], [[0, 0, 0, 0.8, 0, 0], [0, 0, 0, 1.25, 0.2, 0]], 0.0086, [1]),                        # ratio ~57
+                 ("H2", ["H", "H"], [[0, 0, 0, 0.8, 0, 0], [0, 0, 0, 1.3, 0, 0]], 0.004, [1]),                            # ratio 125
                  ("H3", ["H", "H", "H"], [[0, 0, 0, 0.9, 0, 0, 3.2, 0, 0], [0, 0, 0, 1.15, 0, 0, 3.2, 0, 0],
                                             [0, 0, 0, 1.6, 0.1, 0, 3.2, 0, 0]], 0.0125, [1])]                             # ratios 20, ~37
     for name, labels, coords, md, idxs in fine:
@@ -1043,7 +1099,10 @@ def all_cases(ctx):
                       "max_delta": md, "idxs": idxs, "fail_calls": [k]})
     parts.append({"mol": "H2O-cineb", "labels": MOLS["H2O"][0], "coords": [list(map(float, MOLS["H2O"][1])), list(map(float, MOLS["H2O"][2]))],
                   "max_delta": 0.2, "idxs": None, "cineb": True})
-    return {"band": bands, "triple": triples, "mixed": mixed, "ci_sequence": ci_seqs, "config": configs, "interp": interps, "from_end_points": feps, "maxdist": maxd, "partition": parts}
+    opts = [{"mol": name, "labels": MOLS[name][0], "a": MOLS[name][1], "b": MOLS[name][2], "n": n, "cineb": ci}
+            for name, n, ci in ([("H3", 6, False), ("H3", 5, True), ("H2O", 4, False), ("H2O", 7, True), ("H2", 2, False), ("HCN", 9, True)]
+                                if full else [("H3", 6, False), ("H3", 6, True)])]
+    return {"band": bands, "triple": triples, "mixed": mixed, "ci_sequence": ci_seqs, "config": configs, "optimise": opts, "interp": interps, "from_end_points": feps, "maxdist": maxd, "partition": parts}
 
 
 def run(ctx):
@@ -1136,6 +1195,9 @@ def run(ctx):
     for d in cases["ci_sequence"]:
         report("ci_sequence", d, guarded("ci_sequence", oracle_ci_sequence, d, 1))
         ctx.count("impl-oracle-climbing-image-sequence", (d["band"]["m"], d["wait"], tuple(d["profiles"][0])), nontrivial=True)
+    for d in cases["optimise"]:
+        report("optimise", d, guarded("optimise", oracle_optimise, d, 1))
+        ctx.count("impl-oracle-optimiser-path", (d["mol"], d["n"], d["cineb"]), nontrivial=bool(d.pop("_moved", False)))
     for d in cases["config"]:
         report("config", d, guarded("config", oracle_config, d, 1))
         ctx.count("impl-oracle-force-constant-bounds", tuple(d.values()), nontrivial=True)
@@ -1193,23 +1255,34 @@ def run(ctx):
         for dsc, _ in corr_bad[:6]:
             ctx.log("  disagreement:", {k: v for k, v in dsc.items() if k not in ("band", "case")})
     # 5. decide
+    found_new = any(v.get("found_input") for v in ctx.violations)     # a concrete, not-known failing input exists
     if not translated:
-        if nfail == 0:
+        if not found_new:
             ctx.violation("translator failed closed: the anchored NEB code left the translatable vocabulary / the pinned shape of a "
                           "hand-modelled function, the property is not shown for it: " + out.strip()[:400],
                           {"kind": "untranslatable", "translator_output": out.strip()[:2000]}, found_input=False)
     if (translated or pinned_changed) and not proofs_ok:
-        ctx.proof_failure(info, found_any_input=(nfail > 0))
-    if pins_changed and nfail == 0 and not (corr_bad or corr_err) and proofs_ok and translated:
+        ctx.proof_failure(info, found_any_input=found_new)
+    if pins_changed and not found_new and not (corr_bad or corr_err) and proofs_ok and translated:
         ctx.violation("hand model no longer pinned to the source: " + ", ".join(pins_changed),
                       {"kind": "source-pin", "changed": pins_changed}, found_input=False)
     if corr_bad or corr_err:
-        if nfail == 0:
-            ctx.violation("model and implementation disagree (correspondence) and no property-level oracle failed on the implementation",
-                          {"kind": "correspondence", "first": [{k: v for k, v in d.items()} for d, _ in corr_bad[:4]],
-                           "coq_terms": [t for _, t in corr_bad[:2]], "coq_error": corr_err}, found_input=False)
-        else:
-            ctx.log("correspondence disagreements explained by the implementation-level findings above")
+        # a disagreement is explained only by a finding about the SAME function (so that e.g. a listed/awaited finding
+        # on partition cannot hide a silent change of increment)
+        area = {"derivative": ("derivative|", "Image.", "CImage.", "band|"), "tau": ("Image._tau", "band|"),
+                "get_force": ("Image.", "band|"), "CImage.get_force": ("CImage.", "Image._tau", "band|"),
+                "increment": ("Images.increment|", "band|"), "interpolated_species": ("NEB._interpolated_species|", "interp|"),
+                "max_atom_distance": ("NEB._max_atom_distance", "maxdist|"),
+                "partition": ("NEB.partition|", "NEB.from_end_points|", "partition|")}
+        unexplained = [(d, t) for d, t in corr_bad
+                       if not any(k.startswith(area.get(str(d.get("what", "")).split(" ")[0], ("\0",))) for k in reported)]
+        if unexplained or corr_err:
+            ctx.violation(f"model and implementation disagree on {len(unexplained)} correspondence cases that no property-level oracle "
+                          "on the implementation explains (first: " + ", ".join(sorted({str(d.get("what")) for d, _ in unexplained[:20]})) + ")",
+                          {"kind": "correspondence", "first": [{k: v for k, v in d.items()} for d, _ in unexplained[:4]],
+                           "coq_terms": [t for _, t in unexplained[:2]], "coq_error": corr_err}, found_input=False)
+        if len(unexplained) < len(corr_bad):
+            ctx.log(f"{len(corr_bad) - len(unexplained)} correspondence disagreements explained by implementation-level findings on the same function")
 
 
 def replay(ctx, obj):
@@ -1235,13 +1308,19 @@ MANIFEST = {
                    "k_r|x_r-x| - k_l|x-x_l| and perpendicular part -g_perp; the climbing image feels -g + 2(g.tau_hat)tau_hat "
                    "(parallel component of the true force inverted, perpendicular kept); the tangent selection is total (never "
                    "raises, ties included), follows the energy ordering in all strict cases and is the bisector on ties; "
-                   "derivative() gives identically zero blocks for both end images for every band of >= 2 images; adaptive force "
-                   "constants stay in [min_k, max_k] and are monotone in image energy; interpolation keeps the end points, has "
+                   "derivative() gives identically zero blocks for both end images for every band of >= 2 images (partial for 'end "
+                   "images never move': the optimiser itself is measured); an adaptive update is skipped exactly when the peak equals the "
+                   "higher end point (Energy.__eq__), otherwise constants lie in [min_k, max_k], are monotone, strictly increasing at/above "
+                   "E_ref, min_k below it and max_k at the top; interpolation keeps the end points, has "
                    "exactly n evenly spaced images x_0 + i/(n-1)(x_{n-1}-x_0) and keeps atom order; the maximum image distance "
                    "is the maximum over ALL consecutive pairs; partition's result respects max_delta on every consecutive pair "
-                   "and selected atom and keeps the end points.  The tangent/force/adaptive-k definitions are regenerated from "
+                   "and selected atom, keeps the end points and every original image (if it returns).  The tangent/force/adaptive-k definitions are regenerated from "
                    "/repo on every run; derivative/interpolation/max-distance/partition are a hand model tied by correspondence and by a "
-                   "structural pin of their source (fail closed)."),
+                   "structural pin of their source (fail closed).  end_forces_zero_partial covers the gradient handed to the optimiser "
+                   "only; that the end images do not move during the optimisation is measured (IDPP path and the NEB/CINEB._minimise path "
+                   "with a stand-in potential).  Which image climbs over several iterations (CImages.increment), unit-carrying force "
+                   "constants / max_delta, non-contiguous gradient arrays, permuted end-point atom order, init_k vs bounds and injected "
+                   "IDPP failures inside partition are implementation oracles only."),
     "level_note": ("Trusted: Coq kernel; tr/translate_c13.py and its fixed text for Python builtins (validated each run by the "
                    "correspondence); the hand model of derivative, _interpolated_species, _max_atom_distance_between_images and "
                    "partition (validated each run); sqrt/np.linalg.norm enters as an oracle value with the premise nrm^2 = tau.tau "
